@@ -31,6 +31,7 @@ type TierCfg struct {
 	MaxPaths int            `json:"maxPaths"`
 	ObligMS  int            `json:"obligMS"`
 	FeasMS   int            `json:"feasMS"`
+	IncrMS   int            `json:"incrMS"`
 	MaxSteps int64          `json:"maxSteps"`
 	Skip     bool           `json:"skip"`
 }
@@ -219,6 +220,9 @@ func cmdCheck(args []string) int {
 		}
 		if tc.FeasMS > 0 {
 			x.Lim.FeasMS = tc.FeasMS
+		}
+		if tc.IncrMS > 0 {
+			x.Lim.IncrMS = tc.IncrMS
 		}
 		if tc.MaxSteps > 0 {
 			x.Lim.MaxSteps = tc.MaxSteps
